@@ -71,4 +71,33 @@ PROPS['C10'] = {
     'assumptions': ['grids are rectangular (Grid.WF)'],
 }
 
+PROPS['C11'] = {
+    'targets': ['GridVerse.Props.C11'],
+    'theorem_files': [('GridVerse/Props/C11.lean', 'C11_')] + AG('Boundary', 'Objects'),
+    'audit_prefix': 'C11_',
+    'families': {
+        'quick': DYN_QUICK + [(CORE, 'fam_stochastic_scripted', 1600, 16), (CORE, 'fam_geometry', 1600, 16)],
+        'thorough': DYN_THOROUGH + [(CORE, 'fam_stochastic_scripted', 60000, 16), (CORE, 'fam_geometry', 16000, 16)],
+    },
+    'trusted_base': ['numpy Generator.choice(n) returns each of 0..n-1 for some generator state (support) and raises ValueError without drawing for n = 0', 'recording / scripted generator proxies (harness/recrng.py)'],
+    'assumptions': ['random outcomes are modelled as answer streams; every stream is a legal resolution (answer k is used as k mod range)'],
+}
+
+REW_QUICK = [(CORE, 'fam_reward', 4000, 16), (CORE, 'fam_term', 4000, 16), (CORE, 'fam_spath', 3000, 16), (CORE, 'fam_trans_random', 2000, 16)]
+REW_THOROUGH = [(CORE, 'fam_reward', 160000, 16), (CORE, 'fam_term', 160000, 16), (CORE, 'fam_spath', 100000, 16), (CORE, 'fam_trans_random', 50000, 16)]
+
+PROPS['C12'] = {
+    'targets': ['GridVerse.Props.C12'],
+    'theorem_files': [('GridVerse/Props/C12.lean', 'C12_')] + AG('Actions', 'Orient', 'Objects'),
+    'audit_prefix': 'C12_',
+    'families': {'quick': REW_QUICK, 'thorough': REW_THOROUGH},
+    'trusted_base': [
+        'reward parameters are integers in the model; the harness uses integer-valued float parameters so that parts compare exactly, and compares composites with Python sum()',
+        'math.sqrt is strictly monotone on the integers involved (Euclidean distance compared through its square)',
+        'breadth-first shortest path of the model vs the cached dijkstra of the code: correspondence only (no bfs_correct theorem yet)',
+    ],
+    'assumptions': ['next-state agent inside a rectangular grid; distance rewards need exactly one object of the type (mitt.one), reach_exit_memory needs a beacon'],
+    'partial': 'getting_closer_shortest_path: the theorem reduces it to the model BFS; BFS = graph distance is not proved (correspondence + independent BFS oracle only). Wiring of (s, a, s\') inside functional_step is proved in C01/C04.',
+}
+
 NOT_CLAIMED = {}
